@@ -283,8 +283,8 @@ def signed_tokens(bindir: Path):
     return tok["signing_token"][:-len(T)], T
 
 
-def signed_concretise(case: dict, rng: random.Random, G: str, T: str) -> dict:
-    c, d = rng.sample(ORD_CHARS, 2)
+def signed_concretise(case: dict, rng: random.Random, G: str, T: str, cd=None) -> dict:
+    c, d = cd if cd else rng.sample(ORD_CHARS, 2)
     m = {"c": [c], "d": [d], "G": [ord(x) for x in G], "T": [ord(x) for x in T],
          "S": [ord(x) for x in f"SignedSource<<{OLD_DIGEST}>>"]}
     out = dict(case)
@@ -349,7 +349,10 @@ def run_c33(chk: vlib.Check):
     G, T = signed_tokens(bindir)
     r = model_run(chk, "MCSignedSource", ["Extend"])
     cases = [signed_concretise(p, rng, G, T) for tag, p in r.printed if tag == "CASE"]
-    if not cases or len(cases) != r.distinct - 1:
+    # every content once more with line terminators as the ordinary characters (LF and CR), so that
+    # line-ending normalisation before hashing cannot hide behind the seed's choice of representatives
+    cases += [signed_concretise(p, rng, G, T, cd=(0x0A, 0x0D)) for tag, p in r.printed if tag == "CASE"]
+    if not cases or len(cases) != 2 * (r.distinct - 1):
         raise vlib.ToolError(f"MCSignedSource: {len(cases)} CASE lines for {r.distinct} distinct states")
     for c in cases:
         c["src"] = "model"
